@@ -1101,23 +1101,6 @@ func (k *kase) sig(st *step, ps []problem, sn *snapshot, applied bool) string {
 		}
 		return true
 	}
-	if s.composite {
-		// colliding keys among the records / owners this call deals with
-		var tks, oks []string
-		for _, t := range st.flat() {
-			tks = append(tks, t.key)
-		}
-		for _, ov := range st.owners {
-			_, key := splitOwner(ov.ok)
-			oks = append(oks, key)
-			tks = append(tks, sortedKeys(sn.links[ov.ok])...)
-			tks = append(tks, sortedKeys(sn.mem[ov.ok])...)
-			tks = append(tks, sortedKeys(k.m.links[ov.ok])...)
-		}
-		if collide(tks) || collide(oks) {
-			return "composite-key-collision"
-		}
-	}
 	stored := s.readLinks()
 	if applied && s.store == fkTarget && !s.single && st.op == "Append" {
 		// counterfactual: every Append saves the whole in-memory field of the value again,
@@ -1175,6 +1158,23 @@ func (k *kase) sig(st *step, ps []problem, sn *snapshot, applied bool) string {
 			if !viaFresh {
 				return "belongs-to-delete-keeps-key-in-value"
 			}
+		}
+	}
+	if s.composite {
+		// not explained by a counterfactual class: colliding keys among the records / owners this call deals with
+		var tks, oks []string
+		for _, t := range st.flat() {
+			tks = append(tks, t.key)
+		}
+		for _, ov := range st.owners {
+			_, key := splitOwner(ov.ok)
+			oks = append(oks, key)
+			tks = append(tks, sortedKeys(sn.links[ov.ok])...)
+			tks = append(tks, sortedKeys(sn.mem[ov.ok])...)
+			tks = append(tks, sortedKeys(k.m.links[ov.ok])...)
+		}
+		if collide(tks) || collide(oks) {
+			return "composite-key-collision"
 		}
 	}
 	parts := []string{ps[0].what, s.name, st.op}
